@@ -79,6 +79,12 @@ def addToPositions (ps : List Pos) (lower upper liq : Int) : Option Pos → List
   | none => mapPos ps lower upper (fun p => { p with liq := p.liq + liq })
   | some p => ps ++ [p]
 
+/-- the two wallet debits of an add; the first is undone (the wallet is simply not replaced) if the second is refused -/
+def debit2 (cx : NumCtx) (w : Wallet) (k1 : String) (a1 : Rat) (k2 : String) (a2 : Rat) (neg : Bool) : Except Err Wallet :=
+  match debit cx w k1 a1 neg with
+  | .error e => .error e
+  | .ok w1 => debit cx w1 k2 a2 neg
+
 /-- The repaired order: every check and every computation that can raise first; then the two wallet debits
     (the first is undone if the second is refused); only then the positions dict. -/
 def addRaw (K : Kern) (pool : Pool) (s : State) (a0 a1 : Rat) (lower upper : Int) (sqrt? : Option Nat) :
@@ -97,14 +103,11 @@ def addRaw (K : Kern) (pool : Pool) (s : State) (a0 a1 : Rat) (lower upper : Int
     match newEntity K pool s lower upper liq sqrt with
     | .error e => (.error e, s)
     | .ok ent =>
-      match debit K.cx s.wallet pool.tok0 u0 s.allowNeg with
-      | .error e => (.error e, s)
-      | .ok w1 =>
-        match debit K.cx w1 pool.tok1 u1 s.allowNeg with
-        | .error e => (.error e, s)          -- token0's balance is restored
-        | .ok w2 =>
-          (.ok (lower, upper, u0, u1, liq),
-            markUpdate { s with wallet := w2, positions := addToPositions s.positions lower upper liq ent })
+      match debit2 K.cx s.wallet pool.tok0 u0 pool.tok1 u1 s.allowNeg with
+      | .error e => (.error e, s)          -- also when only token1 is refused: token0's balance is restored
+      | .ok w2 =>
+        (.ok (lower, upper, u0, u1, liq),
+          markUpdate { s with wallet := w2, positions := addToPositions s.positions lower upper liq ent })
 
 /-- the code before the repair: positions first, then the debits, nothing undone (kept to state what was wrong) -/
 def addRawOld (K : Kern) (pool : Pool) (s : State) (a0 a1 : Rat) (lower upper : Int) (sqrt? : Option Nat) :
